@@ -97,17 +97,24 @@ func (c *c05Case) files() (Files, map[string]any) {
 		}
 		return " " + strings.Join(p, " ")
 	}
+	cond := ""
 	inc := func(aForm string) string {
 		if c.Short {
-			return `<comp-box` + props(aForm) + `></comp-box>`
+			return `<comp-box` + cond + props(aForm) + `></comp-box>`
 		}
-		return `<template include="` + c05Comp + `"` + props(aForm) + `></template>`
+		return `<template include="` + c05Comp + `"` + cond + props(aForm) + `></template>`
 	}
 	leak := `<p id="leak"><i class="la">{{ a }}</i><i class="lb">{{ b }}</i></p>`
 	var page string
 	switch c.Shape {
 	case "single", "nested":
 		page = `<div id="inc">` + inc(c.AForm) + `</div>` + leak
+	case "iftrue": // a conditional include is an include
+		cond = ` v-if="o"`
+		page = `<div id="inc">` + inc(c.AForm) + `</div>` + leak
+	case "ifelse":
+		cond = ` v-else`
+		page = `<div id="inc"><u v-if="nothing">n</u>` + inc(c.AForm) + `</div>` + leak
 	case "twice":
 		page = `<div id="inc">` + inc(c.AForm) + `</div><div id="inc2">` + inc("omit") + `</div>` + leak
 	case "infor":
@@ -356,7 +363,7 @@ func init() {
 	core.Register(&core.Check{
 		ID:    "C05",
 		Level: "exploration",
-		Rule: "every combination of prop a {omitted, static, interpolated, :bound / v-bind: to 11 values of every JSON-like type incl. 0/false/\"\"/nil/undefined} x prop b {omitted, static, bound} x includer defines a / not x component front-matter defines a / not x :required {none, a, 'a, b', repeated, :require} x shape {single, twice with different props, inside v-for, nested include} x {explicit include, registered shorthand}; " +
+		Rule: "every combination of prop a {omitted, static, interpolated, :bound / v-bind: to 11 values of every JSON-like type incl. 0/false/\"\"/nil/undefined} x prop b {omitted, static, bound} x includer defines a / not x component front-matter defines a / not x :required {none, a, 'a, b', repeated, :require} x shape {single, twice with different props, inside v-for, nested include, include carrying v-if, include carrying v-else} x {explicit include, registered shorthand}; " +
 			"oracle: reference scope model for the values and types printed inside, the includer's following siblings, error iff a required name was not provided, shorthand byte-identical. non-trivial = all",
 		Bounds:      map[string]string{"quick": "full product (include depth <= 2, fan-out <= 2)", "thorough": "same product"},
 		Assumptions: []string{"a required name that is visible from the includer's scope or the component's front-matter although the include does not pass it, and bindings of nil/undefined values, are unconstrained"},
@@ -379,7 +386,7 @@ func init() {
 					}
 				}
 			}
-			for _, shape := range []string{"single", "twice", "infor", "nested"} {
+			for _, shape := range []string{"single", "twice", "infor", "nested", "iftrue", "ifelse"} {
 				for _, short := range []bool{false, true} {
 					for _, a := range aForms {
 						for _, b := range []string{"omit", "static", "bound"} {
